@@ -11,8 +11,15 @@ import time
 
 ROOT = os.path.dirname(os.path.dirname(os.path.abspath(__file__)))
 REPO = os.environ.get("VERIF_REPO", "/repo")
-COQ = os.path.join(ROOT, "coq")
 WORK = os.path.join(ROOT, "work")
+COQ_SHARED = os.path.join(ROOT, "coq")
+if REPO == "/repo":
+    COQ = COQ_SHARED
+else:
+    # a scratch worktree of the repository gets its own copy of the Coq tree (sources are synced from
+    # /verif/coq at the start of every check, Gen/ and the compiled files are its own), so that its
+    # translator output can never disturb checks running against /repo or other worktrees
+    COQ = os.path.join(WORK, "coq-" + re.sub(r"\W", "_", REPO))
 GOENV = dict(os.environ, GOFLAGS="-mod=mod", GOPROXY="off", GOSUMDB="off", GOTOOLCHAIN="local",
              CGO_ENABLED=os.environ.get("CGO_ENABLED", "1"))
 
@@ -108,7 +115,14 @@ class Ctx:
         self.seed = seed
         self.t0 = time.time()
         # a replay run gets its own scratch directory so that the replay file under work/<pid> survives
-        self.work = os.path.join(WORK, pid + ("-replay" if replay else ""))
+        self.work = os.path.join(WORK, pid + ("-replay" if replay else "") +
+                                 ("" if REPO == "/repo" else "@" + re.sub(r"\W", "_", REPO)))
+        if COQ != COQ_SHARED:
+            os.makedirs(COQ, exist_ok=True)
+            with open(os.path.join(WORK, ".coqsync.lock"), "w") as lk:
+                fcntl.flock(lk, fcntl.LOCK_EX)
+                sh(["rsync", "-a", "--delete", "--exclude", "/Gen/", "--include", "*/", "--include", "*.v",
+                    "--exclude", "*", COQ_SHARED + "/", COQ + "/"], timeout=300)
         shutil.rmtree(self.work, ignore_errors=True)
         os.makedirs(self.work, exist_ok=True)
         os.makedirs(os.path.join(ROOT, "evidence"), exist_ok=True)
@@ -162,7 +176,7 @@ class Ctx:
         """Build .vo targets. Returns (ok, output)."""
         cmd = [os.path.join(ROOT, "bin", "coqbuild")] + targets
         self.checker_cmds.append("bin/coqbuild " + " ".join(targets))
-        rc, out = sh(cmd, timeout=3600)
+        rc, out = sh(cmd, timeout=3600, env=dict(os.environ, VERIF_COQ_DIR=COQ))
         if rc != 0:
             self.broken.append(("%s: coq build of %s failed" % (what, " ".join(targets)), out[-3000:]))
             return False, out
@@ -259,12 +273,12 @@ class Ctx:
         return m.group(1)
 
     # ---------------------------------------------------------------- harness
-    def harness_build(self, name):
+    def harness_build(self, name, race=False):
         hdir = os.path.join(ROOT, "harness")
         os.makedirs(os.path.join(hdir, "bin"), exist_ok=True)
         with open(os.path.join(hdir, ".build.lock"), "w") as lk:
             fcntl.flock(lk, fcntl.LOCK_EX)
-            cmd = ["go", "build", "-tags", "verif"]
+            cmd = ["go", "build", "-tags", "verif"] + (["-race"] if race else [])
             if REPO == "/repo":
                 shutil.copyfile(os.path.join(REPO, "go.sum"), os.path.join(hdir, "go.sum"))
             else:
@@ -275,7 +289,7 @@ class Ctx:
                     f.write(open(os.path.join(hdir, "go.mod")).read().replace("=> /repo", "=> " + REPO))
                 shutil.copyfile(os.path.join(REPO, "go.sum"), alt[:-4] + ".sum")
                 cmd += ["-modfile", alt]
-            rc, out = sh(cmd + ["-o", os.path.join(hdir, "bin", name), "./cmd/" + name],
+            rc, out = sh(cmd + ["-o", os.path.join(hdir, "bin", name + ("-race" if race else "")), "./cmd/" + name],
                          env=GOENV, cwd=hdir, timeout=1200)
         if rc != 0:
             self.broken.append(("correspondence: harness %s does not build against the current tree" % name, out[-3000:]))
@@ -296,6 +310,30 @@ class Ctx:
             self.broken.append(("correspondence: harness %s failed (rc=%d)" % (name, rc), out[-3000:]))
             return False, out
         return True, out
+
+    def harness_race_run(self, name, args, what, timeout=1800, env=None):
+        """Run the race-detector build of a harness (thorough tier). A reported data race is a finding."""
+        if not self.harness_build(name, race=True):
+            return
+        exe = os.path.join(ROOT, "harness", "bin", name + "-race")
+        e = dict(GOENV, GORACE="halt_on_error=1 exitcode=66")
+        if env:
+            e.update(env)
+        try:
+            rc, out = sh([exe] + [str(a) for a in args], timeout=timeout, env=e, cwd=self.work)
+        except subprocess.TimeoutExpired:
+            self.info.append("race run of %s timed out" % name)
+            return
+        self.checker_cmds.append("harness/bin/%s-race %s" % (name, " ".join(map(str, args))))
+        if rc == 66 or "WARNING: DATA RACE" in out:
+            i = out.find("WARNING: DATA RACE")
+            path = self.write_replay("race-" + name, {"property": self.pid, "what": "data race reported by the Go race detector " + what,
+                                                       "report": out[i:i + 4000], "cmd": "harness/bin/%s-race %s" % (name, " ".join(map(str, args)))})
+            self.findings.append({"key": "race:" + name, "what": "data race " + what, "replay": path})
+        elif rc != 0:
+            self.info.append("race run of %s exited with %d" % (name, rc))
+        else:
+            self.info.append("race-detector run of %s: no race reported" % name)
 
     def harness_crash_search(self, name, args, total, timeout=120, env=None):
         """The harness process died (a panic in a goroutine of the code under test cannot be recovered): find
